@@ -167,7 +167,17 @@ func (d *DKG) StoreDeal(participant string, deal *dkg.Deal) {
 
 func (d *DKG) ProcessDeals() ([]*dkg.Response, error) {
 	responses := make([]*dkg.Response, 0)
-	for _, deal := range d.deals {
+	// in a fixed order: the responses are signed with nonces drawn from the round's seeded
+	// stream, so a machine that handles the same deals again (a replay after a restart, a
+	// clone with the same seed) must sign the same responses with the same nonces - ranging
+	// over the map would pair a nonce with another response and give the private key away
+	senders := make([]string, 0, len(d.deals))
+	for sender := range d.deals {
+		senders = append(senders, sender)
+	}
+	sort.Strings(senders)
+	for _, sender := range senders {
+		deal := d.deals[sender]
 		if deal.Index == uint32(d.ParticipantID) {
 			continue
 		}
